@@ -86,7 +86,7 @@ def encode(window, sw):
 
 QUICK = [False]
 MID_Q = {1: [-128, -1, 0, 10, 127], 2: [-32768, -1, 0, 10, 32767], 4: [-2 ** 31, -1, 0, 10, 2 ** 31 - 1]}
-QUICK_THR = [-200, 0, 20, 50, 90.3, 186.6]
+QUICK_THR = [-200, 0, 50, 90.3]
 
 
 def windows_for(sw, ch, n):
@@ -209,6 +209,8 @@ def run(prop, tier):
             for n in ((1, 2, 3) if quick else (1, 2, 3, 4)):
                 if n == 4 and ch == 3:
                     continue
+                if quick and n == 3 and ch == 3 and sw != 2:
+                    continue  # 9-value windows: 16-bit only in the quick tier
                 size = sum(1 for _ in windows_for(sw, ch, n)) if n * ch <= 4 else 20000
                 ns = max(1, min(16, size // 1500))
                 for s in range(ns):
